@@ -766,6 +766,16 @@ type sessCfg struct {
 	regs     []regOp
 	fails    map[[2]int]bool
 	sched    string
+	rec      *recorded // when set: keep the byte streams of this session for the cut cases
+}
+
+// a completed session as the server's socket saw it
+type recorded struct {
+	ok         bool
+	c2s, s2c   []byte
+	cutC, cutS int    // number of frames of the join in each direction
+	params     string // the case line's parameters (for the model)
+	cfg        *sessCfg
 }
 
 func waitCh(ch <-chan struct{}) bool {
@@ -1052,6 +1062,10 @@ func runSession(o *hx.Out, cat string, cfg *sessCfg) {
 		botOut, srvOut, hx.Hex([]byte(client.Name)), hx.Hex(client.UUID[:]), hx.Hex([]byte(sname)), suuid, sproto,
 		showFrames(c2sF[:cutC]), showFrames(s2cF[:cutS]), showPlay(c2sF[cutC:]), showPlay(s2cF[cutS:]))
 	o.Case(cat, true, caseLine, implLine)
+	if cfg.rec != nil {
+		*cfg.rec = recorded{ok: joinErr == nil && gp.called && e1 == nil && e2 == nil, c2s: append([]byte{}, rd...), s2c: append([]byte{}, wr...),
+			cutC: cutC, cutS: cutS, params: strings.TrimPrefix(caseLine, "join "), cfg: cfg}
+	}
 
 	// ---------------- the property's predicate
 	accept := cfg.chk == "none" || cfg.chk == "ok"
@@ -1343,6 +1357,212 @@ func genRegistries(r *hx.Rng, mode int) (registry.Registries, []string, [][]byte
 			}
 		}
 		return ""
+	}
+}
+
+// ---------------------------------------------------------------- the peer stops: cut sessions
+
+// scripted peer: delivers a fixed byte string, then reports EOF; what is written to it is dropped
+type scriptConn struct {
+	mu     sync.Mutex
+	data   []byte
+	closed bool
+}
+
+func (c *scriptConn) Read(p []byte) (int, error) {
+	c.mu.Lock()
+	defer c.mu.Unlock()
+	if len(c.data) == 0 {
+		return 0, io.EOF
+	}
+	n := copy(p, c.data)
+	c.data = c.data[n:]
+	return n, nil
+}
+func (c *scriptConn) Write(p []byte) (int, error) {
+	c.mu.Lock()
+	defer c.mu.Unlock()
+	if c.closed {
+		return 0, io.ErrClosedPipe
+	}
+	return len(p), nil
+}
+func (c *scriptConn) Close() error {
+	c.mu.Lock()
+	c.closed = true
+	c.mu.Unlock()
+	return nil
+}
+func (*scriptConn) LocalAddr() net.Addr              { return &net.TCPAddr{} }
+func (*scriptConn) RemoteAddr() net.Addr             { return &net.TCPAddr{} }
+func (*scriptConn) SetDeadline(time.Time) error      { return nil }
+func (*scriptConn) SetReadDeadline(time.Time) error  { return nil }
+func (*scriptConn) SetWriteDeadline(time.Time) error { return nil }
+
+const cutWait = 5 * time.Second
+
+// complete frames in a prefix of the clientbound / serverbound stream
+func framesIn(b []byte, clientbound bool, switched bool) []wframe {
+	var fs []wframe
+	if clientbound {
+		fs, _, _ = parseS2C(b, true)
+	} else {
+		fs, _ = parseC2S(b, switched)
+	}
+	return fs
+}
+
+// the bot against a server that stops after k bytes of the recorded clientbound stream
+func botCut(o *hx.Out, rc *recorded, k int) {
+	cfg := rc.cfg
+	all, switched, _ := parseS2C(rc.s2c, true)
+	_ = switched
+	nf := len(framesIn(rc.s2c[:k], true, false))
+	// the frame that ends the login state (Login Success): the first one, or the second after Set Compression
+	pIdx := 0
+	if len(all) > 0 && all[0].id == int32(packetid.ClientboundLoginLoginCompression) {
+		pIdx = 1
+	}
+	client := bot.NewClient()
+	client.Auth.Name = cfg.name
+	client.Auth.UUID = cfg.claim
+	playPkts := cfg.s2c
+	nPlay := nf - rc.cutS
+	if nPlay < 0 {
+		nPlay = 0
+	}
+	ds := newDispState(playPkts[:nPlay], cfg.fails)
+	if p := register(client, cfg.regs, ds); p != "" {
+		return
+	}
+	sc := &scriptConn{data: append([]byte{}, rc.s2c[:k]...)}
+	var joinErr, hgErr error
+	var pan string
+	done := make(chan struct{})
+	go func() {
+		defer close(done)
+		pan = hx.Try(func() {
+			joinErr = client.JoinServerWithOptions(cfg.addr, bot.JoinOptions{MCDialer: dialFunc(func(ctx context.Context, a string) (*mcnet.Conn, error) {
+				return mcnet.WrapConn(sc), nil
+			})})
+			if joinErr == nil {
+				hgErr = client.HandleGame()
+			}
+		})
+	}()
+	select {
+	case <-done:
+	case <-time.After(cutWait):
+		o.Fail("C19.close.hang", "bot: no return within %v after the server stopped at byte %d of %d (thr=%d)", cutWait, k, len(rc.s2c), cfg.thr)
+		hangs++
+		return
+	}
+	if pan != "" {
+		o.Fail("C19.close.panic", "bot panicked (%s) after the server stopped at byte %d of %d (thr=%d)", pan, k, len(rc.s2c), cfg.thr)
+		return
+	}
+	out := "joined"
+	var le bot.LoginErr
+	var ce bot.ConfigErr
+	switch {
+	case joinErr == nil:
+	case errors.As(joinErr, &le):
+		out = "fail:login-read"
+	case errors.As(joinErr, &ce):
+		out = "fail:config-read"
+	default:
+		out = "fail:other"
+	}
+	o.Case("close.bot", true, fmt.Sprintf("cut side=bot nf=%d %s", nf, rc.params), "cut bot "+out)
+	// predicate
+	switch {
+	case nf < rc.cutS:
+		want := "fail:config-read"
+		if nf <= pIdx {
+			want = "fail:login-read"
+		}
+		if out != want {
+			o.Fail("C19.close.stage", "server stopped at byte %d (%d complete frames, join has %d): join returned %v, expected a %s error (thr=%d)", k, nf, rc.cutS, joinErr, want, cfg.thr)
+		}
+	default:
+		if joinErr != nil {
+			o.Fail("C19.close.stage", "server stopped at byte %d after the join was complete, join returned %v (thr=%d)", k, joinErr, cfg.thr)
+			return
+		}
+		outcome := classifyGameErr(hgErr, nil)
+		if hgErr == nil {
+			o.Fail("C19.close.swallowed", "HandleGame returned nil after the connection ended at byte %d (thr=%d)", k, cfg.thr)
+		}
+		ds.mu.Lock()
+		// every packet received completely before the failure is dispatched, in order, then the error
+		checkDispatch(o, fmt.Sprintf("close at byte %d", k), cfg.regs, playPkts[:nPlay], cfg.fails, ds, outcome)
+		ds.mu.Unlock()
+	}
+}
+
+// the server gate against a client that stops after k bytes of the recorded serverbound stream
+func srvCut(o *hx.Out, rc *recorded, k int) {
+	cfg := rc.cfg
+	_, switched, _ := parseS2C(rc.s2c, true)
+	nf := len(framesIn(rc.c2s[:k], false, switched))
+	pl := server.NewPlayerList(20)
+	lh := &server.MojangLoginHandler{OnlineMode: false, Threshold: cfg.thr}
+	gp := &gameplay{c2s: cfg.c2s}
+	var ch server.ConfigHandler = finishOnly{}
+	if cfg.stock {
+		regs, _, _, _ := genRegistries(o.R.Fork(), cfg.regMode)
+		ch = &server.Configurations{Registries: regs}
+	}
+	srv := &server.Server{
+		ListPingHandler: pingH{pl, server.NewPingInfo("verif", server.ProtocolVersion, chat.Text("motd"), nil)},
+		LoginHandler:    lh, ConfigHandler: ch, GamePlay: gp,
+	}
+	sc := &scriptConn{data: append([]byte{}, rc.c2s[:k]...)}
+	var pan string
+	done := make(chan struct{})
+	go func() {
+		defer close(done)
+		pan = hx.Try(func() { srv.AcceptConn(mcnet.WrapConn(sc)) })
+	}()
+	select {
+	case <-done:
+	case <-time.After(cutWait):
+		o.Fail("C19.close.hang", "server: AcceptConn did not return within %v after the client stopped at byte %d of %d (thr=%d)", cutWait, k, len(rc.c2s), cfg.thr)
+		hangs++
+		return
+	}
+	if pan != "" {
+		o.Fail("C19.close.panic", "server panicked (%s) after the client stopped at byte %d of %d (thr=%d)", pan, k, len(rc.c2s), cfg.thr)
+		return
+	}
+	gp.mu.Lock()
+	called, got := gp.called, gp.got
+	gp.mu.Unlock()
+	out := "closed"
+	if called {
+		out = "joined"
+	}
+	o.Case("close.server", true, fmt.Sprintf("cut side=srv nf=%d %s", nf, rc.params), "cut srv "+out)
+	if nf < rc.cutC {
+		if called {
+			o.Fail("C19.close.accepted", "client stopped at byte %d (%d complete frames, the join needs %d): AcceptPlayer was called on the dead connection (thr=%d stock=%v)", k, nf, rc.cutC, cfg.thr, cfg.stock)
+		}
+		return
+	}
+	if !called {
+		o.Fail("C19.close.stage", "client stopped at byte %d after completing the join: AcceptPlayer not called (thr=%d)", k, cfg.thr)
+		return
+	}
+	want := nf - rc.cutC
+	if len(got) != want {
+		o.Fail("C19.close.lost", "client stopped at byte %d: the server's GamePlay received %d packets, %d were complete (thr=%d)", k, len(got), want, cfg.thr)
+		return
+	}
+	for i := range got {
+		if got[i].id != cfg.c2s[i].id || !bytes.Equal(got[i].data, cfg.c2s[i].data) {
+			o.Fail("C19.close.lost", "client stopped at byte %d: packet #%d arrived altered (thr=%d)", k, i, cfg.thr)
+			return
+		}
 	}
 }
 
@@ -1715,6 +1935,51 @@ func main() {
 	}
 
 	lap("stock")
+	// ---- the peer stops at every byte offset of a recorded session (quick: every offset of the join,
+	// every second one afterwards, and a stride over the second recording)
+	for ci, base := range []sessCfg{
+		{thr: 64, name: "Steve", addr: "example.org:25565", chk: "none", stock: true, regMode: 1, sched: "-"},
+		{thr: -1, name: "Alex_", addr: "localhost", chk: "ok", sched: "-"},
+	} {
+		cfg := base
+		pool := []int32{4, 9}
+		cfg.regs = []regOp{{generic: true, hs: []hspec{{0, markerPrio, 0}}}, {generic: false, hs: []hspec{{4, 1, 1}, {9, 0, 2}, {4, 5, 3}}}}
+		sIDs := []int32{4, 0, 9, 4, 0, 9, 0, 4}
+		if ci == 1 {
+			sIDs = []int32{9, 4, 0, 4, 4}
+		}
+		_ = pool
+		cfg.s2c = make([]playPkt, len(sIDs))
+		for j, id := range sIDs {
+			n := []int{3, 70, 0, 130, 5}[j%5]
+			if id == 0 {
+				n = 0
+			}
+			cfg.s2c[j] = playPkt{id, genPayload(r, n)}
+		}
+		cfg.c2s = []playPkt{{5, genPayload(r, 4)}, {26, genPayload(r, 90)}, {3, nil}, {7, genPayload(r, 65)}}
+		var rc recorded
+		cfg.rec = &rc
+		runSession(o, "close.recording", &cfg)
+		if !rc.ok {
+			o.Fail("C19.harness", "recording session %d did not complete", ci)
+			continue
+		}
+		stride := 1
+		if ci == 1 && o.N(1, 2) == 1 {
+			stride = 3
+		}
+		for k := 0; k <= len(rc.s2c) && hangs < maxHangs; k += stride {
+			if ci == 0 && o.N(1, 2) == 1 && k > 1200 && k%2 == 1 {
+				continue
+			}
+			botCut(o, &rc, k)
+		}
+		for k := 0; k <= len(rc.c2s) && hangs < maxHangs; k += stride {
+			srvCut(o, &rc, k)
+		}
+	}
+	lap("close")
 	// ---- status ping
 	motds := []chat.Message{chat.Text("A Minecraft Server"), chat.Text(""), chat.Text("quote \" and \\ and <html> & ünï"), chat.TranslateMsg("multiplayer.status.ok")}
 	for i := 0; i < o.N(16, 4); i++ {
